@@ -373,6 +373,7 @@ struct Type {
   Type *params;
   bool is_variadic;
   Type *next;
+  struct Scope *proto_scope; // scope of the parameter list
 };
 
 // Struct member
